@@ -25,6 +25,7 @@ type assocOp struct {
 	V      int    `json:"v,omitempty"`
 	Ks     []int  `json:"ks,omitempty"`
 	Ranker string `json:"ranker,omitempty"`
+	Q      bool   `json:"q,omitempty"` // quiet: the views are not looked at after this operation
 }
 
 type assocCase struct {
@@ -59,8 +60,14 @@ func genAssocCase(kind string, keyTypes []string, maxOps, nkeys int) func(core.S
 			ops = mapOps
 		}
 		nops := 1 + s.Choose(maxOps, "nops")
+		// sparse: the views are looked at after some operations only (a view that is cached and not
+		// invalidated by every mutator survives only changes nobody looked at)
+		sparse := s.Choose(2, "sparse") == 0
 		for i := 0; i < nops; i++ {
 			op := assocOp{Op: core.Pick(s, ops, "op")}
+			if sparse {
+				op.Q = s.Choose(3, "quiet") != 0
+			}
 			switch op.Op {
 			case "SetValue":
 				op.K, op.V = s.Choose(nkeys, "k"), s.Choose(4, "v")
@@ -610,7 +617,7 @@ func execAssoc[K comparable, V any](c assocCase, kt keyType[K], vt valType[V]) (
 			catalog.ShuffleValues()
 			v = adoptOrder(step, what)
 		}
-		if v == nil {
+		if v == nil && !(op.Q && step+1 < len(c.Ops)) {
 			v = check(step, what)
 		}
 		if v != nil {
@@ -664,6 +671,7 @@ func genSmallAssoc(kind string, maxOps int) func(core.Source) assocCase {
 	return func(s core.Source) assocCase {
 		c := assocCase{Kind: kind, Ctor: "Make"}
 		c.Key = core.Pick(s, []string{"string", "ptr"}, "key")
+		quiet := s.Choose(2, "look-at-the-end-only") == 1
 		nops := 1 + s.Choose(maxOps, "nops")
 		kinds := []string{"SetValue", "RemoveValue", "RemoveAll", "SortValues", "ReverseValues"}
 		if kind == "map" {
@@ -679,6 +687,7 @@ func genSmallAssoc(kind string, maxOps int) func(core.Source) assocCase {
 			case "RemoveValues":
 				op.Ks = []int{s.Choose(3, "k"), s.Choose(3, "k")}
 			}
+			op.Q = quiet
 			c.Ops = append(c.Ops, op)
 		}
 		return c
